@@ -1427,7 +1427,14 @@ MANIFEST_ENTRY = {
              '(conic_implicit_is_sag; with conic_on_surface: G = 0 <=> z = sag); WHOLE TRACE: for every prescription (any number / mix of '
              'surfaces, shapes, orthogonal frames) the model tracer returns one hit per surface and every outgoing direction is a unit '
              'vector, given a unit start direction and no total internal reflection (trace_unit_directions, induction over the surface '
-             'list; the model tracer is the one compared with raytrace at 1e-9).  TRANSLATION IDENTITIES (generated = model, syntactic or '
+             'list; the model tracer is the one compared with raytrace at 1e-9); under the same hypotheses Snell\'s law in vector form '
+             'holds at EVERY refracting surface with the index the previous hit carries and the law of reflection at EVERY mirror, the '
+             'index being unchanged by mirrors and evaluation surfaces (trace_snell, SurfaceLaw / TraceLaws; the index carried on is the '
+             'translated dispatch of raytrace: gen_index_threading, surface_index -- a mirror that resets the index to ambient fails the '
+             'obligation); and IF the tracer returns hits (Newton stopped everywhere -- a POST-CONDITION, not convergence) every hit of '
+             'every prescription is a point of the ray sent on by the previous hit, within eps*scale*|F\'| of the surface, with the '
+             'normal vector of the surface there (trace_on_surface, newton_model_postcondition by induction over the iteration '
+             'budget).  TRANSLATION IDENTITIES (generated = model, syntactic or '
              'ring-normalised; AST facts; no content of their own): the 12 gen_* theorems and gen_structure.  COMPARED ON THE REAL CODE: '
              'the whole trace (Newton iteration, masking, index threading through n=None surfaces inside glass, batch and single-ray '
              'call forms, every spelling of typ and of P) against the Lean Float model and an independent implicit-surface oracle '
@@ -1438,7 +1445,7 @@ MANIFEST_ENTRY = {
              '(driver op hit, 1e-9): Newton must land on the root next to the vertex, not merely on the surface.'),
     'note': ('NOT proved: convergence of Newton-Raphson on curved surfaces (post-condition in exact arithmetic + comparison with the '
              'proved closed form for conics; proved for planes), floating-point error, the batch '
-             'masking bookkeeping, that hypot/arctan2 deliver a (cos, sin) pair, whole-trace lemmas for on-surface / Snell (unit length is proved); Q-type surfaces are '
+             'masking bookkeeping, that hypot/arctan2 deliver a (cos, sin) pair; Q-type surfaces are '
              'not modelled in Lean (real code vs numerical gradient at 1e-7 only); eps / maxiter are not translated (a loosened stopping '
              'rule is seen through the 2e-12 on-surface residual).  Too few executed cases in any stream is a tool error (floors).'),
 }
